@@ -16,7 +16,7 @@ package api //nolint:revive
 //         configuration #seed built by the loader; the columns are its LIVE secrets (hex, `-` empty, `~` nil)
 //         answer: what the four GET handlers serve at the password positions + canary scan + purity
 //         "G=… D=… L=… P=… leaks=<n> pure=<0|1>"
-//   dump <wire|direct> <reqline> <hostline> <k=v|v,…|-> <body> <secrets,…|->
+//   dump <wire|direct|directnc> <src> <reqline> <hostline> <k=v|v,…|-> <body> <secrets,…|->
 //         answer: hex of dumpRequest's output
 
 import (
@@ -523,8 +523,18 @@ type verifC07Req struct {
 	secrets []string
 }
 
+var verifC07Canary int
+
+// a unique value per planted credential
+func verifC07Secret(r *verifutil.Rand) string {
+	verifC07Canary++
+	return fmt.Sprintf("%sCANARY%dq%d", r.Pick("Bearer ", "Basic ", "sid=", "Digest ", "", "user:"), verifC07Canary, r.Intn(1000000))
+}
+
 func verifC07GenReq(r *verifutil.Rand) *verifC07Req {
-	q := &verifC07Req{mode: r.Pick("wire", "wire", "direct")}
+	// wire: bytes parsed by net/http (any key casing; net/http canonicalises);
+	// direct: header map built by hand with canonical keys; directnc: … with keys in arbitrary spelling
+	q := &verifC07Req{mode: r.Pick("wire", "wire", "wire", "direct", "directnc")}
 	q.method = r.Pick("GET", "POST", "PATCH", "OPTIONS", "DELETE")
 	q.uri = r.Pick("/", "/v3/config/global/get", "/stream/whep?x=1", "/a%20b", "*")
 	if q.uri == "*" {
@@ -533,24 +543,44 @@ func verifC07GenReq(r *verifutil.Rand) *verifC07Req {
 	q.host = r.Pick("localhost:9997", "example.com", "[::1]:8889")
 	secretKeys := httpp.VerifC07HeadersToRedact()
 	plain := []string{"Accept", "Content-Type", "User-Agent", "X-Forwarded-For", "If-Match", "Origin", "Authorizationx", "Cookie2", "X-Api-Key-Id", "Www-Authenticate"}
-	n := r.Intn(7)
-	canon := map[string]bool{}
-	for i := 0; i < n; i++ {
-		var k, v string
-		if r.Chance(1, 2) {
-			k = secretKeys[r.Intn(len(secretKeys))]
-			v = fmt.Sprintf("%s CANARY%dq%d", r.Pick("Bearer", "Basic", "sid=", "Digest"), i, r.Intn(1000000))
-			q.secrets = append(q.secrets, v)
-		} else {
-			k = plain[r.Intn(len(plain))]
-			v = r.Pick("*/*", "application/sdp", "curl/8.0", "10.0.0.1", `"etag"`, "https://a.b", "x")
+	spell := func(k string) string {
+		if q.mode == "direct" {
+			return k
 		}
-		if q.mode == "wire" {
-			// any casing on the wire; a repeated key must keep one spelling per canonical key only in direct mode
-			k = verifC07Case(r, k)
-		}
-		_ = canon
+		return verifC07Case(r, k)
+	}
+	add := func(k, v string, secret bool) {
 		q.headers = append(q.headers, [2]string{k, v})
+		if secret && v != "" {
+			q.secrets = append(q.secrets, v)
+		}
+	}
+	n := r.Intn(6)
+	for i := 0; i < n; i++ {
+		switch r.Intn(8) {
+		case 0, 1, 2: // one credential header
+			add(spell(secretKeys[r.Intn(len(secretKeys))]), verifC07Secret(r), true)
+		case 3: // repeated credential header, each occurrence in its own spelling, 2..4 values
+			k := secretKeys[r.Intn(len(secretKeys))]
+			for j, m := 0, 2+r.Intn(3); j < m; j++ {
+				add(spell(k), verifC07Secret(r), true)
+			}
+		case 4: // repeated credential header whose FIRST value is empty
+			k := secretKeys[r.Intn(len(secretKeys))]
+			add(spell(k), "", true)
+			for j, m := 0, 1+r.Intn(2); j < m; j++ {
+				add(spell(k), verifC07Secret(r), true)
+			}
+			if r.Chance(1, 3) {
+				add(spell(k), "", true)
+			}
+		default:
+			add(spell(plain[r.Intn(len(plain))]), r.Pick("*/*", "application/sdp", "curl/8.0", "10.0.0.1", `"etag"`, "https://a.b", "x", ""), false)
+		}
+	}
+	if r.Chance(1, 8) && len(q.secrets) > 0 {
+		// the same string also outside the credential headers: then it is no secret of theirs
+		add(spell("X-Echo"), q.secrets[r.Intn(len(q.secrets))], false)
 	}
 	if q.method == "POST" || q.method == "PATCH" {
 		q.body = r.Pick("", "v=0\r\no=- 1 1 IN IP4 0.0.0.0\r\n", `{"a":1}`, strings.Repeat("b", r.Intn(300)))
@@ -639,7 +669,7 @@ func (q *verifC07Req) opLine() string {
 		return strings.Join(xs, ",")
 	}
 	src := verifutil.Hex(q.raw)
-	if q.mode == "direct" {
+	if q.mode != "wire" {
 		src = "-"
 	}
 	return fmt.Sprintf("dump %s %s %s %s %s %s %s", q.mode, src, verifutil.HexS(reqLine), verifutil.HexS(hostLine), join(hs),
